@@ -3,7 +3,7 @@
    lookup-key parsing of Refl/ClauseKeys.v, and the proof that it satisfies the clause laws the traversal theorems
    assume (from C15's laws: a unique pattern matches exactly RemoveEscapeChars(pattern), a list-of-unique-values pattern
    matches exactly its values).  This discharges the premise "ckeys_sound / ckeys_complete" for the repaired key parsing;
-   for the parsing as found it is refuted (finding F39).
+   for the parsing as found it is refuted (finding F52).
 
    Names of the tree model are numbers; [tbl] gives the string of a name, [untbl] the name of a string (the correspondence
    driver's intern table).  The laws hold of the names that are the canonical number of a non-empty string. *)
@@ -128,7 +128,7 @@ Definition is_star (c : list N) : bool := text_eqb c star_text.
 Section Inst.
 Variable tbl : name -> list N.        (* the string a name stands for *)
 Variable untbl : list N -> name.      (* the name of a string *)
-Variable keep_esc : bool.             (* the repair of F39 *)
+Variable keep_esc : bool.             (* the repair of F52 *)
 
 (* PutPathString: the clause text "*" gets no StringMatcher at all *)
 Definition pmatch (c : list N) (k : name) : bool :=
@@ -210,7 +210,14 @@ Qed.
 
 End Laws.
 
-(* F39: with the key parsing as found (escape characters dropped before DoDirectChildLookup unescapes once more) a clause
+Lemma clause_laws_lemma :
+  forall (tbl : name -> list N) (untbl : list N -> name), (forall s, tbl (untbl s) = s) ->
+    (forall (c : list N) (ks : list name) (k : name),
+       okname tbl untbl k -> pkeys untbl true c = Some ks -> pmatch tbl c k = true -> In k ks) /\
+    (forall (c : list N) (ks : list name) (k : name), pkeys untbl true c = Some ks -> In k ks -> pmatch tbl c k = true).
+Proof. intros tbl untbl H. split; [exact (pkeys_sound tbl untbl) | exact (pkeys_complete tbl untbl H)]. Qed.
+
+(* F52: with the key parsing as found (escape characters dropped before DoDirectChildLookup unescapes once more) a clause
    reports a lookup key it does not match: the clause  a\\b,c  looks up  ab *)
 Lemma uvkeys_refuted_as_found_lemma :
   exists (p k : list N),
